@@ -45,8 +45,7 @@ Theorem findtype_linearizable :
   forall (key val : Type) (key_eqb : key -> key -> bool),
     (forall a b, reflect (a = b) (key_eqb a b)) ->
   forall (oracle : key -> option val) (c0 : cache key val) (ks : list (key * depans val)) (s : cstate key val),
-    (* where the dependencies of the calling package and the importer both resolve a name, they agree *)
-    (forall k d, In (k, d) ks -> consistent oracle k d) ->
+    (* no hypothesis about the dependencies' answers: they may differ from package to package and from the importer's *)
     sreach key_eqb oracle (cinit c0 ks) s ->
     (* every finished call returned what the sequential execution of the same calls returns *)
     (forall i x r, nth_error (calls s) i = Some x -> cpc x = Done r ->
@@ -249,7 +248,6 @@ Theorem history_independent :
   forall (key val ctx : Type) (key_eqb : key -> key -> bool),
     (forall a b, reflect (a = b) (key_eqb a b)) ->
   forall (oracle : key -> option val) (dep : ctx -> key -> option (option val)),
-    (forall p k, consistent oracle k (dep p k)) ->
     forall c0 ops, fst (run_dep key_eqb oracle dep c0 ops) = map (lone key_eqb oracle dep c0) ops.
 Proof. intros key val ctx key_eqb H. exact (Cache.history_independent key val ctx key_eqb H). Qed.
 Print Assumptions history_independent.
@@ -262,6 +260,14 @@ Example conflicting_dependencies_answered_per_package :
   run_dep N.eqb imp dep [] [(1, 7); (2, 7); (1, 7); (3, 7)] = ([Some 11; Some 12; Some 11; Some 13], [])
   /\ run_front N.eqb (fun p k => lone N.eqb imp dep [] (p, k)) [] [(1, 7); (2, 7); (1, 7); (3, 7)] = [Some 11; Some 11; Some 11; Some 11].
 Proof. split; reflexivity. Qed.
+
+(* a package whose dependencies resolve a name differently from the importer gets ITS answer, also after the importer's
+   answer was cached for a package that does not depend on it *)
+Example dependency_answer_beats_cached_importer_answer :
+  let imp := fun k : N => if N.eqb k 7 then Some 70 else None in
+  let dep := fun (p : bool) (k : N) => if p && N.eqb k 7 then Some (Some 1) else None in
+  run_dep N.eqb imp dep [] [(false, 7); (true, 7); (false, 7)] = ([Some 70; Some 1; Some 70], [(7, 70)]).
+Proof. reflexivity. Qed.
 
 (* a name only the dependencies of some packages resolve: answered for them, an error for the others, whatever the order *)
 Example dependency_answers_are_not_cached :
